@@ -705,6 +705,31 @@ def run_session(script, workdir):
     return log, err
 
 
+def run_abandoned(script, workdir, k):
+    """A writer that writes the first k records and is then ABANDONED: never closed, all references dropped, garbage collected.
+    Returns the bytes on disk afterwards."""
+    import gc
+    import numpy as np
+    P = _parsers()
+    path = os.path.join(workdir, "abandoned.gro")
+    if os.path.exists(path):
+        os.unlink(path)
+    with _deadline(HANG_SECONDS):
+        gf = P.GroFile(path, "w")
+        if script["declare"]:
+            gf.natoms = len(script["records"])
+        gf.box_matrix = np.array(script["box"], dtype=float)
+        gf.comment = script["comment"]
+        if tuple(script["fmt"]) != (8, 3):
+            gf.position_format = tuple(script["fmt"])
+        for rec in script["records"][:k]:
+            gf.writeline(list(rec))
+        del gf
+        gc.collect()
+    with builtins.open(path, "rb") as f:
+        return f.read()
+
+
 WCLAUSE_ID = {"W1": "ensures.crash_before_close_is_rejected",
               "W2": "ensures.crash_inside_close_is_rejected_unless_all_records_and_box_line_are_on_disk",
               "W3": "ensures.accepted_finished_file_returns_exactly_its_atom_records",
@@ -837,6 +862,23 @@ def task_writer(n, tier, seed):
             accepted_inside += stats["accepted_inside_close"]
             nclosing = sum(1 for (ph, _, _) in log if ph == "closing")
             closing_ops.setdefault("declared" if declare else "backfilled", set()).add(nclosing)
+            # the writer abandoned (never closed, object dropped and collected) after k records: still a partial file
+            nrec = len(script["records"])
+            for k_ in sorted({1, max(1, nrec - 1), nrec}):
+                if declare and k_ == nrec:
+                    continue            # every declared record is on disk: only the box line is missing -- covered by the crash points above
+                try:
+                    data_ab = run_abandoned(script, wd, k_)
+                    apath = os.path.join(wd, "abandoned_copy.gro")
+                    with builtins.open(apath, "wb") as f_:
+                        f_.write(data_ab)
+                    obs_ab = reader(apath)
+                    acc.add("W1", 1, 1)
+                    if obs_ab[0] != "rejected":
+                        fails.append(("W1", -100000 - k_, "writer abandoned after %d of %d records (never closed, object garbage-collected): %d bytes on disk are %s; "
+                                      "expected an exception" % (k_, nrec, len(data_ab), _show(obs_ab))))
+                except (_Hang, Exception) as e_:      # noqa
+                    fails.append(("?W1", -100000 - k_, "abandoned-writer run could not be made: %s: %s" % (type(e_).__name__, str(e_)[:120])))
             for clause, idx, msg in fails:
                 cex = {"kind": "writer", "name": sname, "script": script, "crash_index": idx,
                        "signature": "%s:%s" % (clause.lstrip("?"), "declared" if declare else "backfilled"),
@@ -948,6 +990,16 @@ def _replay_bounded(prop, cex):
                     "violated": [m for _, m in bad], "not_judged": [m for c, m in allj if c.startswith("?")], "inputs": cex}
         if cex.get("kind") == "writer":
             script = cex["script"]
+            idx0 = cex.get("crash_index")
+            if isinstance(idx0, int) and idx0 <= -100000:       # abandoned writer (never closed, garbage-collected) after k records
+                k_ = -100000 - idx0
+                data_ab = run_abandoned(script, wd, k_)
+                apath = os.path.join(wd, "abandoned_copy.gro")
+                with builtins.open(apath, "wb") as f:
+                    f.write(data_ab)
+                obs_ab = reader(apath)
+                return {"reproduced": obs_ab[0] != "rejected", "observed": "%d bytes on disk after the writer was abandoned: %s" % (len(data_ab), _show(obs_ab)),
+                        "expected": "an exception: the writer was never closed", "inputs": cex}
             log, err = run_session(script, wd)          # writer under the pass-through proxy (needed to see the crash state)
             counts, distinct, fails, log, stats = check_session(script, wd, reader, log, err)
             gc.collect()
